@@ -64,24 +64,6 @@ theorem onProp_refused {st : State} (hinv : Inv st) {k : PKey} {f : PropRec → 
   · exact h'
   · rw [h', hf p he]; exact putProp_self hinv.ids (findProp_mem hp)
 
-/-! ## the `values` setter refuses without touching, except after the resize -/
-
-theorem setValues_refused' {p : PropRec} {inp : Input} {e : Err} (h : (setValues p inp).2 = .error e)
-    (h1 : e ≠ .valueError) (h2 : e ≠ .overflowError) : (setValues p inp).1 = p := by
-  rcases setValues_cases p inp with ⟨h', _⟩ | ⟨vs, h', _⟩ | ⟨e', h', _⟩ | ⟨dt, n, data, _, _, h'⟩
-  · rw [h'] at h; simp at h
-  · rw [h'] at h ⊢
-    rcases assignList_result p vs with ⟨cells, hres, _⟩ | ⟨e', hres, _⟩ | ⟨e', hres, hcase, _⟩
-    · rw [hres] at h; simp at h
-    · rw [hres]
-    · rw [hres] at h
-      cases h
-      rcases hcase with rfl | rfl
-      · exact absurd rfl h2
-      · exact absurd rfl h1
-  · rw [h']
-  · rw [h'] at h; simp at h
-
 /-! ## `create_property` -/
 
 theorem createPlan_list_check {ws : List PyVal} {dt : TypeArg ⊕ DType} {n : Nat} {inp : Input}
@@ -211,14 +193,15 @@ theorem createPlan_of_list {ws : List PyVal} {vals : Input} {dt : TypeArg ⊕ DT
       · simp at h
       · simp at h; exact h.2.2.symm
 
-/-- the complete case analysis of `create_property` -/
+/-- the complete case analysis of `create_property`: it raises and nothing was created, or it
+succeeds and exactly one property — holding the assigned values — was appended -/
 theorem createProperty_cases (st : State) (name : Str) (inp : Input) :
     (∃ e, createProperty st name inp = (st, .error e)) ∨
     (∃ dt n vals d, createPlan inp = .ok (dt, n, vals) ∧ resolveDtype dt = .ok d ∧ nameOk name = true ∧
-      (∀ p ∈ st.props, p.name ≠ name) ∧
+      (∀ p ∈ st.props, p.name ≠ name) ∧ (setValues (newProp st name d n) vals).2 = .ok () ∧
       createProperty st name inp =
         ({ st with props := st.props ++ [(setValues (newProp st name d n) vals).1], next := st.next + 1 },
-         (setValues (newProp st name d n) vals).2)) := by
+         .ok ())) := by
   by_cases hdup : st.props.any (·.name == name) = true
   · left; exact ⟨.duplicateName, by simp [createProperty, hdup]⟩
   · cases hplan : createPlan inp with
@@ -229,60 +212,61 @@ theorem createProperty_cases (st : State) (name : Str) (inp : Input) :
       · cases hd : resolveDtype dt with
         | error e => left; exact ⟨e, by simp [createProperty, hdup, hplan, hname, hd]⟩
         | ok d =>
-          right
-          refine ⟨dt, n, vals, d, rfl, hd, hname, ?_, by simp [createProperty, hdup, hplan, hname, hd]⟩
-          intro p hp hne
-          apply hdup
-          rw [List.any_eq_true]
-          exact ⟨p, hp, by simp [hne]⟩
+          cases hr : (setValues (newProp st name d n) vals).2 with
+          | error e => left; exact ⟨e, by simp [createProperty, hdup, hplan, hname, hd, hr]⟩
+          | ok u =>
+            right
+            refine ⟨dt, n, vals, d, rfl, hd, hname, ?_, hr,
+              by simp [createProperty, hdup, hplan, hname, hd, hr]⟩
+            intro p hp hne
+            apply hdup
+            rw [List.any_eq_true]
+            exact ⟨p, hp, by simp [hne]⟩
       · left; exact ⟨.valueError, by simp [createProperty, hdup, hplan, hname]⟩
 
-/-- `create_property` that raises anything but ValueError / OverflowError (that is: TypeError,
-DuplicateName, …) created nothing -/
+/-- whatever `create_property` raises, nothing was created -/
 theorem createProperty_refused {st : State} {name : Str} {inp : Input} {e : Err}
-    (h : (createProperty st name inp).2 = .error e) (h1 : e ≠ .valueError) (h2 : e ≠ .overflowError) :
-    (createProperty st name inp).1 = st := by
-  rcases createProperty_cases st name inp with ⟨e', h'⟩ | ⟨dt, n, vals, d, hplan, hd, _, _, h'⟩
+    (h : (createProperty st name inp).2 = .error e) : (createProperty st name inp).1 = st := by
+  rcases createProperty_cases st name inp with ⟨e', h'⟩ | ⟨dt, n, vals, d, _, _, _, _, _, h'⟩
   · rw [h']
-  · exfalso
-    rw [h'] at h
-    simp only at h
-    rcases createPlan_vals hplan with ⟨ws, rfl⟩ | ⟨a, s, dd, hi, _⟩
-    · cases ws with
-      | nil => simp [setValues, PropRec.clear] at h
-      | cons w ws =>
-        obtain ⟨d', hdt, hchk⟩ := createPlan_list_check hplan (by simp)
-        subst hdt
-        simp [resolveDtype] at hd
-        subst hd
-        generalize hp0 : newProp st name d' n = p0 at h
-        have hdp : p0.dtype = d' := by rw [← hp0]; rfl
-        have hsv : setValues p0 (.list (w :: ws)) = assignList p0 (w :: ws) := rfl
-        rw [hsv] at h
-        rcases assignList_result p0 (w :: ws) with ⟨cells, hres, _⟩ | ⟨e', hres, hce⟩ | ⟨e', hres, hcase, _⟩
-        · rw [hres] at h; simp at h
-        · rw [hdp, hchk] at hce; cases hce
-        · rw [hres] at h
-          cases h
-          rcases hcase with rfl | rfl
-          · exact h2 rfl
-          · exact h1 rfl
-    · subst hi
-      obtain ⟨d', m, hdt, hs, hv, hchk⟩ := createPlan_nd_check hplan
-      subst hdt hs hv
+  · rw [h'] at h; simp at h
+
+/-- the TypeError of `create_property` is a verdict of the checks that precede creation: the final
+assignment never raises it (lists passed the consistency scan, arrays the dtype comparison) -/
+theorem createProperty_assign_not_typeError {st : State} {name : Str} {inp vals : Input}
+    {dt : TypeArg ⊕ DType} {n : Nat} {d : DType}
+    (hplan : createPlan inp = .ok (dt, n, vals)) (hd : resolveDtype dt = .ok d) :
+    (setValues (newProp st name d n) vals).2 ≠ .error .typeError := by
+  intro h
+  rcases createPlan_vals hplan with ⟨ws, rfl⟩ | ⟨a, s, dd, hi, _⟩
+  · cases ws with
+    | nil => simp [setValues, PropRec.clear] at h
+    | cons w ws =>
+      obtain ⟨d', hdt, hchk⟩ := createPlan_list_check hplan (by simp)
+      subst hdt
       simp [resolveDtype] at hd
       subst hd
       generalize hp0 : newProp st name d' n = p0 at h
       have hdp : p0.dtype = d' := by rw [← hp0]; rfl
-      rw [← hdp] at hchk
-      simp [setValues, hchk] at h
-
-/-- whatever `create_property` does, the properties that existed stay, in order, in front -/
-theorem createProperty_prefix (st : State) (name : Str) (inp : Input) :
-    st.props <+: (createProperty st name inp).1.props ∧ (createProperty st name inp).1.secs = st.secs := by
-  rcases createProperty_cases st name inp with ⟨e', h'⟩ | ⟨dt, n, vals, d, _, _, _, _, h'⟩
-  · rw [h']; exact ⟨List.prefix_refl _, rfl⟩
-  · rw [h']; exact ⟨List.prefix_append _ _, rfl⟩
+      have hsv : setValues p0 (.list (w :: ws)) = assignList p0 (w :: ws) := rfl
+      rw [hsv] at h
+      rcases assignList_result p0 (w :: ws) with ⟨cells, hres, _⟩ | ⟨e', hres, hce⟩ | ⟨hres, _⟩
+      · rw [hres] at h; simp at h
+      · rw [hres] at h
+        simp at h
+        subst h
+        rw [hdp, hchk] at hce
+        rcases hce with hce | ⟨_, hce⟩ <;> cases hce
+      · rw [hres] at h; simp at h
+  · subst hi
+    obtain ⟨d', m, hdt, hs, hv, hchk⟩ := createPlan_nd_check hplan
+    subst hdt hs hv
+    simp [resolveDtype] at hd
+    subst hd
+    generalize hp0 : newProp st name d' n = p0 at h
+    have hdp : p0.dtype = d' := by rw [← hp0]; rfl
+    rw [← hdp] at hchk
+    simp [setValues, hchk] at h
 
 theorem createSection_error {st : State} {name type : Str} {e : Err}
     (h : (createSection st name type).2 = .error e) : (createSection st name type).1 = st := by
